@@ -488,7 +488,8 @@ def run(ctx):
     wrong = tlc.apalache('StopWatchInd', 'IndInit', 'WrongGoal', 1, ctx.work)
     if (base, step, wrong) != ('ok', 'ok', 'violation'):
         raise MachineryError('StopWatchInd: base %s, step %s, wrong goal %s' % (base, step, wrong))
-    ctx.stage('apalache-inductive', base=base, step=step, wrong_goal=wrong)
+    proved = tlc.tlaps('StopWatchIndProof', ctx.work)
+    ctx.stage('apalache-inductive', base=base, step=step, wrong_goal=wrong, tlaps_obligations_proved=proved)
 
     # 2. graph export and spec -> code replay --------------------------------
     gcfg = 'MC_StopWatch_graph_quick.cfg' if quick else 'MC_StopWatch_graph.cfg'
